@@ -405,7 +405,9 @@ def main_check(prop_id, tier, seed, cases=None, time_s=None, workers=None):
         merged[k] = dict(sorted(merged[k].items()))
 
     # ---- verdict ---------------------------------------------------------
-    known = load_known()
+    # VERIF_IGNORE_KNOWN=1 (development only): report known findings as
+    # violations too, to inspect their current witnesses
+    known = [] if os.environ.get('VERIF_IGNORE_KNOWN') else load_known()
     known_hit = {}
     unlisted = {}
     for v in merged['violations']:
